@@ -129,3 +129,10 @@ func vRWMutexHeldNative(m interface {
 }) bool {
 	return vMutexHeldNative(m)
 }
+
+// vGo stands in for the go statements that start the association's background loops
+// (see patchedSources in /verif/engine/main.go): harness runs are sequential, the
+// loops' bodies are invoked explicitly by the harnesses.
+var vGoCalls int
+
+func vGo(f func()) { vGoCalls++ }
